@@ -1,6 +1,7 @@
 import ClusterVerif.Spec.C08
 import ClusterVerif.Gen.C08
 import Driver.Parse
+import Driver.C08Wire
 /-! C08 driver: parses the case lines of harness/c08 (suites rt, eq, str, fuzz), applies the Spec
 clauses to the implementation's output, then compares that output with the model's prediction.
 Core Lean only. -/
@@ -289,7 +290,8 @@ def answerFuzz (ws : List String) : String :=
                else if outcome.startsWith "ok:reenc-err" then "ok:reenc-err" else outcome
     if !(["err", "ok:reenc-ok", "ok:reenc-err", "ok:reenc-panic", "panic"].contains cls) then "bad-case fuzz-outcome " ++ outcome.take 40 else
     let cs := fuzzClauses cls
-    let arm := "fuzz-" ++ (dec.splitOn ":").head! ++ "-" ++ cls
+    -- per decoder entry point = format × record type (the per-type distribution of the search is the arm histogram)
+    let arm := "fuzz-" ++ dec ++ "-" ++ cls
     if !holdsAll cs then "propfail " ++ failedNames cs ++ " arm=" ++ arm else "ok arm=" ++ arm
   | _ => "bad-case fuzz-shape"
 
@@ -301,6 +303,10 @@ def answer (ws : List String) : String :=
   | "eq" :: rest => answerEq rest
   | "str" :: rest => answerStr rest
   | "fuzz" :: rest => answerFuzz rest
+  | "pbenc" :: rest => answerWire "pbenc" rest
+  | "pbdec" :: rest => answerWire "pbdec" rest
+  | "qesc" :: rest => answerWire "qesc" rest
+  | "qparse" :: rest => answerWire "qparse" rest
   | _ => "bad-case unknown-suite"
 
 end CV.C08
